@@ -9,6 +9,13 @@ type GlyphInfo struct {
 
 type Buffer struct {
 	Info []GlyphInfo
+	out  []GlyphInfo
+	idx  int
+}
+
+func (b *Buffer) nextGlyph() {
+	b.out = append(b.out, b.Info[b.idx])
+	b.idx++
 }
 
 func (b *Buffer) unsafeToBreak(start, end int) {
@@ -116,5 +123,27 @@ func puaBad(b *Buffer) {
 		}
 		b.unsafeToBreak(base, i)
 		info[i].codepoint += 0xF000
+	}
+}
+
+// the pair (cursor, next glyph) is flagged before the cursor moves
+func cursorGood(b *Buffer) {
+	for b.idx = 0; b.idx+1 < len(b.Info); {
+		if b.Info[b.idx+1].codepoint == 0x11C3 {
+			b.unsafeToBreak(b.idx, b.idx+2)
+			b.nextGlyph()
+		}
+		b.nextGlyph()
+	}
+}
+
+// the cursor has moved: the range no longer holds the glyph the decision was taken on
+func cursorBad(b *Buffer) {
+	for b.idx = 0; b.idx+1 < len(b.Info); {
+		if b.Info[b.idx+1].codepoint == 0x11C3 {
+			b.nextGlyph()
+			b.unsafeToBreak(b.idx, b.idx+2)
+		}
+		b.nextGlyph()
 	}
 }
